@@ -133,8 +133,17 @@ pub enum Value<'a> {
 impl<'a> Value<'a> {
     /// Clones the value, placing any array backing stores in the given arena.
     /// Strings use zero-cost clone. Numbers/bools/null are trivial copies.
-    fn clone_into(&self, arena: &'a Arena) -> Self {
+    ///
+    /// With `detach`, owned strings are copied into `arena` as well. A zero-copy
+    /// alias of a variable's string dangles as soon as that variable is
+    /// overwritten or its scope exits (the pool slot is recycled, the frame is
+    /// reset) while the clone is still in use, e.g. `return s` or `x add f()`
+    /// where `f` reassigns `x`.
+    fn clone_into(&self, arena: &'a Arena, detach: bool) -> Self {
         match self {
+            Value::Str(ArenaCow::Owned(s)) if detach => {
+                Value::Str(ArenaCow::Owned(ArenaString::from_str(arena, s.as_str())))
+            }
             Value::Str(cow) => Value::Str(cow.clone()),
             Value::Number(n) => Value::Number(*n),
             Value::Bool(b) => Value::Bool(*b),
@@ -143,7 +152,7 @@ impl<'a> Value<'a> {
             Value::Array(items) => {
                 let mut new = Vec::with_capacity_in(items.len(), arena);
                 for item in items {
-                    new.push(item.clone_into(arena));
+                    new.push(item.clone_into(arena, detach));
                 }
                 Value::Array(new)
             }
@@ -1714,7 +1723,9 @@ impl<'a> Runtime<'a> {
 
     #[inline]
     fn lookup_local(&self, local: LocalId, clone_arena: &'a Arena) -> Option<Value<'a>> {
-        self.lookup_local_env(local).map(|value| value.clone_into(clone_arena))
+        // Storage is only ever recycled when a separate frame arena is in use.
+        let detach = self.has_frame_arena();
+        self.lookup_local_env(local).map(|value| value.clone_into(clone_arena, detach))
     }
 
     #[inline]
@@ -1735,7 +1746,8 @@ impl<'a> Runtime<'a> {
 
     #[inline]
     fn lookup_var(&self, name: &str, clone_arena: &'a Arena) -> Option<Value<'a>> {
-        self.lookup_env(name).map(|v| v.clone_into(clone_arena))
+        let detach = self.has_frame_arena();
+        self.lookup_env(name).map(|v| v.clone_into(clone_arena, detach))
     }
 
     #[inline]
